@@ -279,6 +279,11 @@ def r05_3b(ck, F):
         ck.inconclusive("check_local#try_recv-table", "no explicit match on TryRecvError; only the coarse clauses were checked")
 
 
+def r05_4(ck, F):
+    import cancel
+    cancel.rule(ck, F, "R05.4", only=("rch::base::", "chmux::receiver::", "chmux::sender::"), floor=4)
+
+
 def run(ck, F):
     import c03
     ck.run_rule(r05_3b)
@@ -286,3 +291,5 @@ def run(ck, F):
     for r in (r05_1, r05_2, r05_3):
         ck.run_rule(r)
     ck.run_rule(c03.r03_2)
+    ck.run_rule(c03.r03_8)
+    ck.run_rule(r05_4)
